@@ -34,13 +34,15 @@ func vfEncodeDatagram(f vfDatagramFields) []byte {
 	return d
 }
 
+var vfC12NoVariants bool
+
 func vfPairOfStates(shapes []vfShape, nc int, mtus []int, split int) (k1, k2 *KCP, em1, em2 *[]vfEmit, z vfShiftT) {
 	em1, em2 = new([]vfEmit), new([]vfEmit)
 	vfIteLifting(true)
 	vfSplitLive = vfSplitSegs | split
 	// thorough: the quick family plus two-element variants (the full product is out of reach for
 	// relational queries)
-	if vfTier() > 0 {
+	if vfTier() > 0 && !vfC12NoVariants {
 		var more []vfShape
 		for _, q := range shapes {
 			more = append(more, q)
@@ -211,6 +213,10 @@ func vfH_C12_input_send() {
 // acknowledgements (exact ACK, fast-ack counting, RTT sample, cumulative una and the flush they
 // trigger): the heaviest relational queries, one in-flight segment in the quick tier
 func vfH_C12_input_ack() {
+	// no two-segment variants here, in either tier: the relational queries of the full Input on
+	// two in-flight segments time out in the solver (measured: 288 unknown of 24 304 queries, 19
+	// min); two segments are covered by vfH_C12_ack_functions on the functions themselves
+	vfC12NoVariants = true
 	vfC12Input([]vfShape{{1, 0, 0, 0, 0}}, []uint8{IKCP_CMD_ACK})
 }
 
